@@ -189,3 +189,31 @@ pub fn reference(pd: &Pd, h: i64, t: i64, reduced: bool, modulus: Option<u32>) -
     c.insert(key, r.clone());
     r
 }
+
+/// All admissible references: one per orientation of the components that never pass under a
+/// crossing (the library may orient those either way; every other sign is forced).
+pub fn references(pd: &Pd, h: i64, t: i64, reduced: bool, modulus: Option<u32>) -> Vec<Arc<RefKh>> {
+    let first = reference(pd, h, t, reduced, modulus);
+    if !first.orientation_ambiguous {
+        return vec![first];
+    }
+    let mut key_pd = pd.clone();
+    key_pd.sort();
+    let dg = Diagram::from_pd(&key_pd);
+    let amb = dg.orientation().expect("valid").ambiguous_comps.clone();
+    let base = if reduced { base_edge(pd) } else { None };
+    let mut out = vec![];
+    for mask in 0..(1u32 << amb.len().min(4)) {
+        let flips: Vec<usize> = amb.iter().enumerate().filter(|(k, _)| (mask >> k) & 1 == 1).map(|(_, c)| *c).collect();
+        let cube = Cube::new_oriented(&dg, h, t, reduced, base, &flips).expect("valid");
+        out.push(Arc::new(RefKh {
+            graded: cube.homology(modulus),
+            bigraded: (h == 0 && t == 0).then(|| cube.homology_bigraded(modulus)),
+            components: cube.components,
+            orientation_ambiguous: true,
+            n_plus: cube.n_plus,
+            n_minus: cube.n_minus,
+        }));
+    }
+    out
+}
